@@ -444,7 +444,15 @@ func c05Scenarios(tier string) []*Scenario {
 			}
 		}
 	}
-	// tunnel level: 1-3 streams carrying several windows of data, reader pacing owned by the search
+	scs = append(scs, c05TunnelScenarios(tier)...)
+	return scs
+}
+
+// c05TunnelScenarios: 1-3 streams carrying several windows of data, reader pacing owned by
+// the search.
+func c05TunnelScenarios(tier string) []*Scenario {
+	var scs []*Scenario
+	thorough := tier == "thorough"
 	type tl struct {
 		name string
 		wls  func() []Workload
